@@ -327,6 +327,10 @@ def rule_links(facts, rep):
                 a = hir.simp(n["args"][1])
                 ok = ok and a.get("k") == "local" and hir.is_call(hir.simp(dict(panics.Ctx(b, {}).lets).get((a["name"], a.get("id")), {})), "anstyle::color::Ansi256Color::from_ansi")
     rep.check(ok and len(cs) == 2, "allowlist", "anstyle_lossy::palette::Palette::get_ansi256_ref", "index-is-from_ansi(color)", f"{sorted(cs)}", "")
+    # the parser's guards that the Params / intermediates / OSC allowlist entries cite (same rules as C02, evaluated here too)
+    from rules import C02
+    C02.rule_guards(facts, rep)
+    C02.rule_params(facts, rep)
     st = facts.item("anstyle", "anstyle::color::DisplayBuffer", "Struct")
     rep.check("Restricted" in st["vis"] and all("Restricted" in f["vis"] for f in st["variants"][0]["fields"]), "allowlist", st["path"], "private-type-and-fields", "", "")
 
